@@ -19,10 +19,11 @@ pub const STR_FAULTS: [&str; 30] = [
 ];
 
 /// Ill-typed / ill-formed single statements.
-pub const STMT_FAULTS: [&str; 28] = [
+pub const STMT_FAULTS: [&str; 31] = [
     "PRINT REC", "PRINT 1; REC", "REC = 5", "ZN# = \"a\"", "ZS$ = 5", "ZN# = REC", "ZS$ = REC", "Sb1 \"a\"", "Sb1 1, 2", "Sb1", "SbS 5", "Sb1 ZS$", "SbS ZN#", "Sb1 SARR$(1)", "SbS ARR%(1)",
     "GOTO Nowhere", "GOSUB Nowhere", "ARR%(1) = \"a\"", "SARR$(1) = 5", "REC.N = \"a\"", "REC.S = 5", "CALL Sb1(\"a\")",
     "SbArr LARR&()", "SbArr SARR$()", "SbArr ZN#", "Sb1 ARR%()", "SbArr REC", "SbArr ARR%(1)",
+    "ZC.D = 1", "ZC = 1", "ZC.D$ = \"a\"",
 ];
 
 /// Statement templates with one numeric expression hole `{e}`; several lines = a block statement.
@@ -87,7 +88,7 @@ pub struct Case {
     pub rows: (u32, u32),
 }
 
-const PRELUDE: [&str; 13] = [
+const PRELUDE: [&str; 15] = [
     "TYPE RT",
     "  N AS INTEGER",
     "  S AS STRING * 4",
@@ -101,6 +102,8 @@ const PRELUDE: [&str; 13] = [
     "DIM SHARED ZW%",
     "ZN# = 1",
     "ZS$ = \"a\"",
+    "CONST ZC = 4",
+    "CONST ZC.D = 5",
 ];
 
 const PROCS: [&str; 18] = [
